@@ -122,7 +122,7 @@ class C18(Scenario):
     prop = "C18"
     level = "exploration"
     design_ref = "DESIGN.md 3.5, 4/C18"
-    rule = ("three workloads by run index: EventDebouncer (event source with gaps around the debounce interval, start and stop racing it), AutoRestartTrick (events, child behaviours: runs for ever / "
+    rule = ("three workloads by run index: EventDebouncer (event source with gaps around the debounce interval, start and stop racing it; in 35% of these runs events over a two-path alphabet, i.e. equal events also directly after one another), AutoRestartTrick (events, child behaviours: runs for ever / "
             "exits by itself at t / ignores the stop signal until SIGKILL / dies some ticks after the signal; kill_after, debounce interval and restart_on_command_exit seeded; stop() racing; "
             "Popen.poll() taking 0..300 ticks in 40% of the runs; an event delivered by a dispatcher thread around start() in 15%; a concurrent stop() from a second thread in 15%), "
             "ShellCommandTrick (wait_for_process / drop_during_process); distinct = distinct (workload+program digest, interleaving digest); non-trivial = a pre-emption was taken or a child "
@@ -149,6 +149,11 @@ class C18(Scenario):
             gaps = [0, 0, 1, d // 2, max(0, d - 1), d, d + 1, 2 * d + 3]
             case.update(interval=iv, events=[rng.choice(gaps) for _ in range(rng.randrange(0, 7))], start_first=rng.random() < 0.5,
                         stop_after=rng.choice([None, None, 0, 1, d // 2, d, 3 * d + 5]), pre_start_yields=rng.randrange(0, 4))
+            erng = random.Random(f"{seed}:equal")
+            if erng.random() < 0.35:
+                # events that compare equal (same class, same path), also directly after one another: each one handed in is
+                # owed to the callback; the harness tells them apart by object identity
+                case["paths"] = [erng.choice([0, 0, 1]) for _ in case["events"]]
         elif mode == "autorestart":
             beh = []
             for _ in range(rng.randrange(1, 5)):
@@ -255,8 +260,10 @@ class C18(Scenario):
 
     # ------------------------------------------------------------------ debouncer
     def run_debouncer(self, sim, case, hist, edb, wev):
+        objs = {}
+
         def cb(events):
-            hist["batches"].append({"t": sim.now, "seq": sim.next_seq(), "ids": [int(e.src_path[1:]) for e in events]})
+            hist["batches"].append({"t": sim.now, "seq": sim.next_seq(), "ids": [objs.get(id(e), -1) for e in events]})
             sim.rec("batch", [e.src_path for e in events], sim.now)
 
         deb = edb.EventDebouncer(case["interval"], cb)
@@ -269,7 +276,11 @@ class C18(Scenario):
                     sim.yield_point("src")
                 rec = {"id": i, "inv": sim.next_seq(), "t": sim.now}
                 hist["handled"].append(rec)
-                deb.handle_event(wev.FileModifiedEvent(f"e{i}"))
+                paths = case.get("paths")
+                ev = wev.FileModifiedEvent(f"e{paths[i] if paths and i < len(paths) else i}")
+                objs[id(ev)] = i
+                hist.setdefault("keep", []).append(ev)  # keeps id() unique for the run
+                deb.handle_event(ev)
                 rec["ret"] = sim.next_seq()
 
         if case["start_first"]:
